@@ -422,7 +422,7 @@ func c18Random(c *core.Ctx, idx int) {
 			want := ""
 			for i, n := 0, r.Intn(3); i < n; i++ {
 				if r.Bool() {
-					x := []string{"&", "|", "&&", "∧", "und", "OrElse"}[r.Intn(6)]
+					x := []string{"&", "|", "&&", "∧", "und", "OrElse", "AND", "and", "OR", "or", "NOT", "not", "BASIC"}[r.Intn(13)] // (a symbol is a symbol, also when it spells a kind word)
 					args = append(args, x)
 					want += x
 				} else {
@@ -670,6 +670,15 @@ func c18Random(c *core.Ctx, idx int) {
 func c18RandomCond(c *core.Ctx, idx int) {
 	r := c.Rng
 	cd := stackage.Cond("kw", stackage.Eq, "v")
+	if r.Chance(1, 3) {
+		// the expression is a Stack or a Condition with settings of its own: each level renders its own
+		if r.Bool() {
+			cd = stackage.Cond("kw", stackage.Eq, stackage.And().SetEncap(`"`).Push("a", "b"))
+		} else {
+			cd = stackage.Cond("kw", stackage.Eq, stackage.Cond("in", stackage.Ge, "w").SetEncap("'").SetParen(true))
+		}
+	}
+	ex0 := cd.Expression()
 	var log []string
 	fail := func(key, msg string) {
 		c.Violate("cond:"+key, fmt.Sprintf("%s after [%s]", msg, strings.Join(log, "; ")), map[string]any{"calls": log})
@@ -797,7 +806,7 @@ func c18RandomCond(c *core.Ctx, idx int) {
 			fail("loglevel", fmt.Sprintf("log levels %#06x %q, model %#06x %q", sn.LogLvl, cd.LogLevels(), lvl, lvlString(lvl)))
 			return
 		}
-		if sn.Kw != "kw" || !SameValue(sn.Ex, "v") {
+		if sn.Kw != "kw" || !SameValue(sn.Ex, ex0) {
 			fail("content", "a settings call changed keyword/expression")
 			return
 		}
